@@ -1,6 +1,7 @@
 package util
 
 import (
+	"io"
 	"os"
 	"path/filepath"
 	"sort"
@@ -73,12 +74,27 @@ func UnlinkFileAt(dir *os.File, filename string) error {
 }
 
 // WriteFileAt writes to a new file in given directory
+//
+// The data is written under a temporary name and renamed when complete, so that a file which exists under its final
+// name is always whole - also after a short write, a full disk or a crash in the middle of writing.
 func WriteFileAt(dir *os.File, filename string, data []byte, perm os.FileMode) error {
-	fd, oerr := unix.Openat(int(dir.Fd()), filename, unix.O_WRONLY|unix.O_CREAT|unix.O_TRUNC, uint32(perm))
+	dirFd := int(dir.Fd())
+	tmpname := filename + ".tmp"
+	fd, oerr := unix.Openat(dirFd, tmpname, unix.O_WRONLY|unix.O_CREAT|unix.O_TRUNC, uint32(perm))
 	if oerr != nil {
 		return oerr
 	}
-	_, werr := unix.Write(fd, data)
-	unix.Close(fd)
-	return werr
+	n, werr := unix.Write(fd, data)
+	cerr := unix.Close(fd)
+	if werr == nil && n != len(data) {
+		werr = io.ErrShortWrite
+	}
+	if werr == nil {
+		werr = cerr
+	}
+	if werr != nil {
+		_ = unix.Unlinkat(dirFd, tmpname, 0)
+		return werr
+	}
+	return unix.Renameat(dirFd, tmpname, dirFd, filename)
 }
